@@ -124,7 +124,7 @@ func mintC15(r *simrt.Rand, secret string, now time.Time) *c15tok {
 		}
 	case "signature":
 		b := []byte(s)
-		i := len(b) - 1 - r.Intn(20)
+		i := len(b) - 2 - r.Intn(20) // not the last character: its low bits are padding
 		if b[i] == 'A' {
 			b[i] = 'B'
 		} else {
